@@ -20,7 +20,9 @@ use weechess_engine::searcher::{ControlEvent, Searcher, StatusEvent};
 /// 10 000 x workers; the margin is against a legitimate change of the poll interval, the
 /// property only asks for "a short bounded time")
 pub fn cap_for(workers: u8) -> usize {
-    20 * 10_000 * workers.max(1) as usize
+    // VERIF_C04_CAP_FACTOR: development only (measuring how far mutants overrun)
+    let f = std::env::var("VERIF_C04_CAP_FACTOR").ok().and_then(|x| x.parse::<usize>().ok()).unwrap_or(20);
+    f * 10_000 * workers.max(1) as usize
 }
 
 pub const TERMINAL_FENS: &[&str] = &[
@@ -148,6 +150,10 @@ pub struct SyncCase {
     pub cancel: Option<u32>,
     /// follow-up search on the returned artifact
     pub follow: Option<(Source, u8, u64)>,
+    /// searches run to completion on the same memory BEFORE the judged one (depth 1-6, one worker):
+    /// (on the judged root itself?, otherwise this position, depth, seed)
+    #[serde(default)]
+    pub warm: Vec<(bool, Source, u8, u64)>,
 }
 
 pub struct TerminationSync;
@@ -180,10 +186,14 @@ impl Prop for TerminationSync {
             any::<u64>(),
             cancel_strategy(),
             proptest::option::weighted(0.4, (sparse_source(), 1u8..=3, any::<u64>())),
+            prop_oneof![
+                5 => Just(vec![]),
+                5 => prop::collection::vec((prop::bool::weighted(0.75), sparse_source(), 1u8..=6, any::<u64>()), 1..=2),
+            ],
         )
-            .prop_map(|(root, hasher_seed, geometry, depth, seed, w, sched, cancel, follow)| {
+            .prop_map(|(root, hasher_seed, geometry, depth, seed, w, sched, cancel, follow, warm)| {
                 let workers = WORKERS[w as usize];
-                SyncCase { root, hasher_seed, geometry, depth, seed, workers, sched: if workers > 1 && sched % 8 != 0 { Some(sched) } else { None }, cancel, follow }
+                SyncCase { root, hasher_seed, geometry, depth, seed, workers, sched: if workers > 1 && sched % 8 != 0 { Some(sched) } else { None }, cancel, follow, warm }
             })
             .boxed()
     }
@@ -223,10 +233,32 @@ impl Prop for TerminationSync {
         let geometry: Geometry = if depth.map(|d| d > 6).unwrap_or(false) { GEOMETRIES[0] } else { GEOMETRIES[case.geometry as usize % GEOMETRIES.len()] };
         let spec = SearchSpec { depth, seed: case.seed, workers, sched_seed: sched, cancel_after: cancel };
         let cap = cap_for(workers);
-        let artifact = search::new_artifact(case.hasher_seed, geometry);
+        let mut artifact = search::new_artifact(case.hasher_seed, geometry);
+        // Stop has to be obeyed on a memory that earlier searches (of this very root, too) have filled
+        let mut warmed = String::new();
+        if !matches!(case.root, Root::Explosive(..)) {
+            for (same, src, d, wseed) in case.warm.iter() {
+                let wp = if *same { Some(pos.clone()) } else { source_pos(src) };
+                let Some(wp) = wp else { continue };
+                let wd = if low && *same { *d } else { capped_depth(&wp, *d, 1) };
+                let wspec = SearchSpec { depth: Some(wd), seed: *wseed, workers: 1, sched_seed: None, cancel_after: None };
+                let (wout, wback) = search::run(&wp, &wspec, artifact, usize::MAX);
+                loc.eval();
+                if let Some(p) = &wout.panic {
+                    return Err(format!("warm-up search of '{}' ({:?}) panicked: {}", wp.fen(), wspec, p));
+                }
+                let Some(a) = wback else { return Err(format!("warm-up search of '{}' ({:?}) returned no artifact", wp.fen(), wspec)) };
+                artifact = a;
+                warmed.push_str(&format!(" after a depth-{} search of {}", wd, if *same { "the same position".to_string() } else { format!("'{}'", wp.fen()) }));
+                loc.class(if *same { "warm_memory_same_root" } else { "warm_memory_other_root" });
+            }
+        }
         let (out, back) = search::run(&pos, &spec, artifact, cap);
         loc.eval();
-        let ctxs = format!("search of '{}' ({:?}, table {}x{})", pos.fen(), spec, geometry.tables, geometry.buckets);
+        if std::env::var("VERIF_C04_TRACE").is_ok() {
+            eprintln!("trace: '{}' {:?}{} total {} after_cancel {} progress {:?}", pos.fen(), spec, warmed, out.nodes_total, out.nodes_after_cancel, out.progress.iter().map(|p| (p.0, p.1)).collect::<Vec<_>>());
+        }
+        let ctxs = format!("search of '{}' ({:?}, table {}x{}){}", pos.fen(), spec, geometry.tables, geometry.buckets, warmed);
         if let Some(p) = &out.panic {
             if p.contains("VERIF_OVERRUN") {
                 return Err(format!("{}: more than {} nodes were searched after the Stop (cancellation flag raised at node {:?}); the search does not obey Stop", ctxs, cap, cancel));
